@@ -108,6 +108,41 @@ fn flip_config(kind: &str, rate: Option<f32>, len: usize, n: u64, seed: u64, rep
     t.finish(rep);
 }
 
+/// 1/length on long genomes: only the aggregated flip count is judged (expected: one flip per
+/// mutation), which resolves a rate that is a few per cent off - e.g. a rate computed in coarse
+/// fixed point, in integer arithmetic, or from a truncated length.
+fn one_over_length_long(kind: &str, len: usize, n: u64, seed: u64, rep: &mut Report) {
+    let cfg = format!("{kind} len={len} (long genome, aggregated)");
+    let mut rng = TraceRng::derive(seed, "C12-flip-long", fnv_str(&cfg));
+    let parent: Vec<bool> = (0..len).map(|i| i % 3 == 0).collect();
+    let mut flips = 0u64;
+    let mut first_half = 0u64;
+    for _ in 0..n {
+        rep.eval();
+        let child: Vec<bool> = if kind.ends_with("Vec<bool>") {
+            WithOneOverLength.mutate(parent.clone(), &mut rng).unwrap()
+        } else {
+            WithOneOverLength.mutate(Bitstring { bits: parent.clone() }, &mut rng).unwrap().bits
+        };
+        if child.len() != len {
+            rep.violation("C12/flip/length", || json!({"config": cfg}));
+            return;
+        }
+        for i in 0..len {
+            if child[i] != parent[i] {
+                flips += 1;
+                if i < len / 2 {
+                    first_half += 1;
+                }
+            }
+        }
+    }
+    let mut t = Table::new(cfg);
+    t.cat(rep, "flip-rate", "any gene flipped (aggregated over positions)", n * len as u64, flips, 1.0 / len as f64);
+    t.cat(rep, "flip-rate", "a gene in the first half flipped", n * (len / 2) as u64, first_half, 1.0 / len as f64);
+    t.finish(rep);
+}
+
 fn umad_config(add: f64, del: f64, len: usize, n: u64, seed: u64, rep: &mut Report) {
     let cfg = format!("Umad add={add} del={del} len={len}");
     let mut rng = TraceRng::derive(seed, "C12-umad", fnv_str(&cfg));
@@ -447,6 +482,7 @@ enum Cfg {
     Uniform(usize, usize),
     Bits(usize, f64, usize),
     Gene(usize, Option<f32>, bool, bool, usize),
+    OneOverLong(&'static str, usize, u64),
     UniformLags(usize, usize),
     FlipLags(usize, usize),
 }
@@ -505,6 +541,12 @@ pub fn run(args: &Args) -> i32 {
             cfgs.push(Cfg::Uniform(fl, len));
         }
     }
+    for kind in ["WithOneOverLength/Vec<bool>", "WithOneOverLength/Bitstring"] {
+        // (length, mutations): enough mutations to resolve a rate that is ~4 % off
+        for (len, muts) in [(3_000usize, 60_000u64), (6_000, 20_000), (11_000, 12_000), (70_000, 2_500)] {
+            cfgs.push(Cfg::OneOverLong(kind, len, muts));
+        }
+    }
     for fl in 0..4 {
         for len in [70usize, 130] {
             cfgs.push(Cfg::UniformLags(fl, len));
@@ -536,6 +578,7 @@ pub fn run(args: &Args) -> i32 {
             Cfg::UmadEmpty(c, a, e) => umad_empty_config(*c, *a, *e, n, args.seed, &mut rep),
             Cfg::Uniform(fl, len) => uniform_config(*fl, *len, n / (*len as u64).clamp(1, 8) / (*len as u64 / 64).max(1), args.seed, &mut rep),
             Cfg::Bits(w, p, len) => bitstring_config(*w, *p, *len, n / (*len as u64).clamp(1, 8) / (*len as u64 / 64).max(1), args.seed, &mut rep),
+            Cfg::OneOverLong(kind, len, muts) => one_over_length_long(kind, *len, *muts * args.tier.pick(1, 8), args.seed, &mut rep),
             Cfg::Gene(k, c, s, v, ctor) => gene_config(*k, *c, *s, *v, *ctor, n / 2, args.seed, &mut rep),
             Cfg::UniformLags(fl, len) => uniform_xo_lags("C12/uniform-xo", *fl, *len, n / 10, args.seed, &mut rep),
             Cfg::FlipLags(kind, len) => flip_lags(*kind, *len, n / 10, args.seed, &mut rep),
